@@ -54,9 +54,16 @@ def generate(ctx, rng):
         yield ("rx-special", j), {"kind": "rx", "key": rng.randbytes(32), "payload": pl, "counter": rng.randrange(65536), "rseed": rng.getrandbits(32),
                                   "inner_marker": False}
         yield ("dec-special", j), {"kind": "dec", "key": rng.randbytes(32), "payload": pl, "counter": rng.randrange(65536), "pad": rng.randbytes(v3.pad_len(len(pl)))}
+    # ... combined with packet counters whose own bytes look like a marker (the counter sits right in front of the payload)
+    for ctr in (0x5A5A, 0x005A, 0x5A00, 0x015A, 0x8370, 0x7083, 0x0083, 0x7000, 0xAAAA, 0x00AA, 0xFFFF):
+        for j, pl in enumerate(special[:12] + [b"\x5a", b"\x70", b"\xaa\x20\xac", b"\x5a\x5a" + rng.randbytes(40), b"\x70\x00\x20" + rng.randbytes(9)]):
+            yield ("dec-special-ctr", ctr, j), {"kind": "dec", "key": rng.randbytes(32), "payload": pl, "counter": ctr, "pad": rng.randbytes(v3.pad_len(len(pl)))}
+            if j % 3 == 0:
+                yield ("rx-special-ctr", ctr, j), {"kind": "rx", "key": rng.randbytes(32), "payload": pl, "counter": ctr, "rseed": rng.getrandbits(32),
+                                                   "inner_marker": False}
     # ... and responses whose ciphertext or tag happens to contain the start marker bytes 83 70 (searched for)
     found = 0
-    want = 40 if quick else 3000
+    want = 40 if quick else 12000
     tries = 0
     while found < want and tries < 400000:
         tries += 1
@@ -76,7 +83,7 @@ def generate(ctx, rng):
         for ctr in Q_COUNTERS + [rng.randrange(4096) for _ in range(60)]:
             yield ("enc-ctr", ctr), {"kind": "enc", "key": rng.randbytes(32), "payload": rng.randbytes(ctr % 40), "counter": ctr}
     # sessions: many requests / responses of varying length on ONE protocol instance (state carried between packets)
-    for j in range(40 if quick else 7500):
+    for j in range(40 if quick else 30000):
         style = j % 4
         if style == 0:
             lens = list(range(0, 48))
@@ -109,7 +116,7 @@ def generate(ctx, rng):
         yield ("wire-key-shape", j), {"kind": "wire", "frame": rng.randbytes(rng.randint(0, 60)), "responses": [rng.randbytes(rng.randint(0, 60))],
                                       "key": rng.randbytes(32), "token": rng.randbytes(64), "session_key_shape": pat, "shape_seed": rng.getrandbits(32)}
     # wire round trips
-    for j in range(120 if quick else 60000):
+    for j in range(120 if quick else 240000):
         L = j % 200 if j < 200 else rng.randint(0, 255)
         yield ("wire", j), {"kind": "wire", "frame": rng.randbytes(L), "responses": [rng.randbytes(rng.choice([rng.randint(0, 120), rng.randint(120, 260)])) for _ in range(rng.choice([1, 1, 2]))],
                             "key": rng.randbytes(32), "token": rng.randbytes(64)}
